@@ -607,6 +607,18 @@ func grid(prop string, thorough bool) []Job {
 				}
 			}
 		}
+		if !thorough {
+			// the scenarios on the dedicated histories are few and cheap: first, so that a
+			// budget cut on a busy machine drops repetitions of the large grids, not them
+			dedicated := func(j Job) bool {
+				switch j.Sc.Hist {
+				case "H5", "H15", "H15w", "H13", "H18", "H2r", "H2c", "H2d":
+					return true
+				}
+				return false
+			}
+			sort.SliceStable(jobs, func(i, k int) bool { return dedicated(jobs[i]) && !dedicated(jobs[k]) })
+		}
 	case "C07":
 		jobs = append(jobs, handshakeJobs(thorough)...)
 	case "C08":
